@@ -55,6 +55,26 @@ for _n in range(0, N_MAX + 1):
             defined_props=["C16"], raises_props=["C16"])
 
 
+# ---- interpolation (C06): exact at entered years, linear in between, constant outside the data range, or the assumption
+for _n in range(0, 4):
+    _ens = []
+    if _n == 0:
+        _ens.append(("C06.assumption_only_series_is_constant", "result[0] == old_assumption"))
+    elif _n == 1:
+        _ens.append(("C06.single_point_series_is_constant", "result[0] == old_v[0]"))
+    else:
+        _ens.append(("C06.exact_at_entered_years", " and ".join("implies(t2 == old_t[%d], result[0] == old_v[%d])" % (i, i) for i in range(_n))))
+        _ens.append(("C06.constant_outside_the_data_range", "implies(t2 <= old_t[0], result[0] == old_v[0]) and implies(t2 >= old_t[%d], result[0] == old_v[%d])" % (_n - 1, _n - 1)))
+        _ens.append(("C06.linear_between_entered_years", " and ".join(
+            "implies(old_t[%d] <= t2 and t2 <= old_t[%d], result[0] == old_v[%d] + (old_v[%d] - old_v[%d]) * (t2 - old_t[%d]) / (old_t[%d] - old_t[%d]))" % (i, i + 1, i, i + 1, i, i, i + 1, i)
+            for i in range(_n - 1))))
+    _ens.append(("C06.one_value_per_requested_time", "len(result) == 1"))
+    CONTRACTS["utils:TimeSeries.interpolate#n%d" % _n] = dict(
+        schema=schema, make_env=_env(_n), params={"t2": "real"}, ghost_params={"method": "const:'linear'"},
+        ensures=_ens, defined_props=["C06"], raises={}, raises_props=["C06"])
+
+
+
 def _replay(model, contract):
     """replay on a REAL TimeSeries with the model's times and values"""
     import atomica.utils as au
@@ -66,6 +86,29 @@ def _replay(model, contract):
     n = contract["n"]
     ts = [val("t%d" % i) for i in range(n)]
     vs = [val("v%d" % i) for i in range(n)]
+    if contract["op"] == "interpolate":
+        t2 = val("t2")
+        a = val("assumption")
+        pre = dict(t=ts, vals=vs, op="interpolate", at=t2, assumption=a)
+        if any(x >= y for x, y in zip(ts, ts[1:])):
+            return dict(verdict="requires-fail", detail="model times not strictly increasing", prestate=pre)
+        s = au.TimeSeries(t=list(ts), vals=list(vs), assumption=a)
+        try:
+            got = s.interpolate(t2)
+        except Exception as e:
+            return dict(verdict="violates", detail="real code raised %s: %s" % (type(e).__name__, e), prestate=pre)
+        # independent oracle: the property's wording
+        if n == 0:
+            want = a
+        elif n == 1 or t2 <= ts[0]:
+            want = vs[0]
+        elif t2 >= ts[-1]:
+            want = vs[-1]
+        else:
+            i = max(j for j in range(n - 1) if ts[j] <= t2)
+            want = vs[i] + (vs[i + 1] - vs[i]) * (t2 - ts[i]) / (ts[i + 1] - ts[i])
+        ok = len(got) == 1 and abs(float(got[0]) - want) <= 1e-9 * max(1.0, abs(want))
+        return dict(verdict="holds" if ok else "violates", detail="interpolate(%r) returned %r, the documented rule gives %r" % (t2, list(map(float, got)), want), prestate=pre)
     t = val("t")
     pre = dict(t=ts, vals=vs, op=contract["op"], at=t)
     if any(a >= b for a, b in zip(ts, ts[1:])):
@@ -93,4 +136,4 @@ def _replay(model, contract):
 for _k, _c in CONTRACTS.items():
     _c["replay_hook"] = _replay
     _c["n"] = int(_k.split("#n")[1])
-    _c["op"] = "insert" if ".insert#" in _k else "remove"
+    _c["op"] = "insert" if ".insert#" in _k else ("remove" if ".remove#" in _k else "interpolate")
